@@ -77,6 +77,11 @@ def _src(stmts):
     return [ast.unparse(s) for s in stmts]
 
 
+def _same(stmts, expected):
+    """statement list equals the expected source statements (compared as ASTs)"""
+    return [ast.dump(x) for x in stmts] == [ast.dump(ast.parse(e).body[0]) for e in expected]
+
+
 def _class_assign(cls, name):
     vals = [n.value for n in cls.body if isinstance(n, ast.Assign)
             and any(isinstance(t, ast.Name) and t.id == name for t in n.targets)]
@@ -114,7 +119,7 @@ def facts():
             _need(_fn(c, "handle_line", required=False) is None, f"{c.name} overrides handle_line")
             _need(ast.unparse(c.bases[0]) == "BaseMySensorsProtocol", f"{c.name} first base is not BaseMySensorsProtocol")
     hl = [s for s in _body(_fn(base, "handle_line")) if not _is_log_only(s)]
-    _need(_src(hl) == ["self.gateway.tasks.add_job(self.gateway.logic, line)"],
+    _need(_same(hl, ["self.gateway.tasks.add_job(self.gateway.logic, line)"]),
           f"handle_line body (log statements removed) is {_src(hl)}")
     # nothing else in the protocol classes touches the buffer
     for c in protos:
@@ -136,17 +141,17 @@ def facts():
     pk = _cls(stree, "Packetizer", spec.origin)
     lr = _cls(stree, "LineReader", spec.origin)
     _need([ast.unparse(b) for b in lr.bases] == ["Packetizer"], "LineReader does not subclass Packetizer directly")
-    dr = _src(_body(_fn(pk, "data_received")))
-    _need(dr == ["self.buffer.extend(data)",
-                 "while self.TERMINATOR in self.buffer:\n"
-                 "    (packet, self.buffer) = self.buffer.split(self.TERMINATOR, 1)\n"
-                 "    self.handle_packet(packet)"],
-          f"pyserial Packetizer.data_received body changed: {dr}")
+    dr = _body(_fn(pk, "data_received"))
+    _need(_same(dr, ["self.buffer.extend(data)",
+                     "while self.TERMINATOR in self.buffer:\n"
+                     "    packet, self.buffer = self.buffer.split(self.TERMINATOR, 1)\n"
+                     "    self.handle_packet(packet)"]),
+          f"pyserial Packetizer.data_received body changed: {_src(dr)}")
     init = _src(_body(_fn(pk, "__init__")))
     _need("self.buffer = bytearray()" in init, "Packetizer.__init__ does not start with an empty bytearray buffer")
-    hp = _src(_body(_fn(lr, "handle_packet")))
-    _need(hp == ["self.handle_line(packet.decode(self.ENCODING, self.UNICODE_HANDLING))"],
-          f"pyserial LineReader.handle_packet body changed: {hp}")
+    hp = _body(_fn(lr, "handle_packet"))
+    _need(_same(hp, ["self.handle_line(packet.decode(self.ENCODING, self.UNICODE_HANDLING))"]),
+          f"pyserial LineReader.handle_packet body changed: {_src(hp)}")
     enc = _class_assign(lr, "ENCODING")
     err = _class_assign(lr, "UNICODE_HANDLING")
     _need(len(enc) == 1 and isinstance(enc[0], ast.Constant) and enc[0].value == "utf-8",
@@ -177,10 +182,10 @@ def facts():
     tasks = _cls(ktree, "Tasks", kpath)
     sync = _cls(ktree, "SyncTasks", kpath)
     asy = _cls(ktree, "AsyncTasks", kpath)
-    _need(_src(_body(_fn(sync, "add_job"))) == ["self.queue.append((func, args))"],
+    _need(_same(_body(_fn(sync, "add_job")), ["self.queue.append((func, args))"]),
           f"SyncTasks.add_job body is {_src(_body(_fn(sync, 'add_job')))}")
-    _need(_src(_body(_fn(asy, "add_job"))) == ["job = (func, args)", "reply = self.run_job(job)",
-                                                "self.transport.send(reply)"],
+    _need(_same(_body(_fn(asy, "add_job")), ["job = func, args", "reply = self.run_job(job)",
+                                             "self.transport.send(reply)"]),
           f"AsyncTasks.add_job body is {_src(_body(_fn(asy, 'add_job')))}")
     for c in (sync, asy):
         _need(_fn(c, "run_job", required=False) is None, f"{c.name} overrides run_job")
@@ -189,14 +194,33 @@ def facts():
     rj = [s for s in rj if not (isinstance(s, ast.Assign) and ast.unparse(s.value) == "timer()")]
     rj = [s for s in rj if not (isinstance(s, ast.If) and "timer" not in ast.unparse(s.test)
                                 and "end - start" in ast.unparse(s.test))]
-    _need(_src(rj) == ["if job is None:\n    if not self.queue:\n        return None\n    job = self.queue.popleft()",
-                       "(func, args) = job", "reply = func(*args)", "return reply"],
+    _need(_same(rj, ["if job is None:\n    if not self.queue:\n        return None\n    job = self.queue.popleft()",
+                     "func, args = job", "reply = func(*args)", "return reply"]),
           f"Tasks.run_job body (timing/log statements removed) is {_src(rj)}")
     pq = _body(_fn(sync, "_poll_queue"))
     _need(len(pq) == 1 and isinstance(pq[0], ast.While), "SyncTasks._poll_queue is not a single while loop")
-    loop = _src(pq[0].body)
-    _need(loop[:2] == ["reply = self.run_job()", "self.transport.send(reply)"],
-          f"SyncTasks._poll_queue loop starts with {loop[:2]}")
+    _need(_same(pq[0].body[:2], ["reply = self.run_job()", "self.transport.send(reply)"]),
+          f"SyncTasks._poll_queue loop starts with {_src(pq[0].body[:2])}")
+    # ------------------------------------------------------------ every add_job call site
+    # jobs other than (logic, line) only produce a string: <message>.encode or str(job)
+    sites = []
+    for py in sorted((repo / "mysensors").glob("*.py")):
+        for n in ast.walk(_parse(py)):
+            if isinstance(n, ast.Call) and isinstance(n.func, ast.Attribute) and n.func.attr == "add_job":
+                _need(n.args and not n.keywords, f"{py.name}: add_job call without positional job")
+                f0 = ast.unparse(n.args[0])
+                if f0 == "self.gateway.logic":
+                    _need(len(n.args) == 2, f"{py.name}: add_job(logic, ...) with {len(n.args)} args")
+                elif f0 == "str":
+                    _need(len(n.args) == 2, f"{py.name}: add_job(str, ...) with {len(n.args)} args")
+                elif isinstance(n.args[0], ast.Attribute) and n.args[0].attr == "encode" and len(n.args) == 1:
+                    pass
+                else:
+                    raise TranslateError(f"{py.name}:{n.lineno}: add_job({f0}, ...) is not logic / str / <msg>.encode")
+                sites.append((py.name, f0))
+    _need(any(f0 == "self.gateway.logic" and name == "transport.py" for name, f0 in sites),
+          "no add_job(self.gateway.logic, line) in transport.py")
+    out["add_job_sites"] = len(sites)
     return out
 
 
@@ -222,6 +246,7 @@ def generate():
         "Definition poll_queue_sends_run_job : bool := true.       (* reply = run_job(); transport.send(reply) *)",
         "Definition run_job_pops_left_and_calls : bool := true.",
         "Definition send_drops_empty_message : bool := true.       (* if not message ...: return *)",
+        f"Definition nested_jobs_only_produce_strings : bool := true. (* all {f['add_job_sites']} add_job call sites: logic / str / <msg>.encode *)",
         "",
     ]
     return "\n".join(lines)
